@@ -200,4 +200,33 @@ theorem inv_keepAt (s : State) (a : Nat) (qa : Int) (p : Nat) (hI : Inv s) (hp :
   repeat' split
   all_goals first | exact hI | exact inv_keepResp s a _ p hI hp
 
+/-- under the invariant `qfree` never hits the `set.remove` KeyError -/
+theorem no_usedKey (hw : Bool) (a : Nat) (i : Instr) (s s' : State) (pc : Int) (hI : Inv s) :
+    step hw a i s pc ≠ .fault s' .usedKey := by
+  intro h
+  rcases hap : s.apps a with _ | ap
+  · unfold step at h; simp only [hap] at h; split at h <;> cases h
+  · rcases hl : stepLoc hw a i (s.loc ap) pc with ⟨l, pc'⟩ | ⟨l, f⟩
+    · rw [step_ok_of_loc hap hl] at h; cases h
+    · rw [step_fault_of_loc hap hl] at h
+      cases h
+      have hq := stepLoc_qchange hw a i (s.loc ap) pc
+      cases i <;> simp only [stepLoc] at hl
+      all_goals first
+        | (have := (wr_fault hl).2; cases this; done)
+        | skip
+      all_goals (try (unfold arith at hl)); (try (unfold arithm at hl))
+      all_goals
+        repeat' split at hl
+      all_goals first
+        | (cases hl; done)
+        | (have := (wr_fault hl).2; cases this; done)
+        | (simp only [br_ok] at hl; cases hl; done)
+        | skip
+      -- the only remaining case: qfree of a mapped qubit that is not marked used
+      rename_i p _ _ q hq' hmem
+      apply hmem
+      have hu : unitOf s a = some ap.unit := by simp [unitOf, hap]
+      exact (hI.used_iff q).2 (Or.inl ⟨a, p, by simp [phys, hu, physU]; exact hq'⟩)
+
 end NQ.Exec
